@@ -43,20 +43,37 @@ def impl(case):
     from phylib.stats.ccg import correlograms, firing_rate
     if case['op'] == 'ccg':
         r, T, times, bin_size, window = _prep(case)
-        sc = np.array(case['sc'], dtype=getattr(np, case.get('dtype', 'int64')))
+        base = case.get('idbase', 0)          # the same labelling with every cluster id shifted by a constant
+        sc = np.array([c + base for c in case['sc']], dtype=getattr(np, case.get('dtype', 'int64')))
         ids = case.get('ids')
+        if ids is not None:
+            ids = [c + base for c in ids]
+            if case.get('idskind') == 'array':
+                ids = np.array(ids, dtype=np.int64)
+        keep = (times.copy(), sc.copy(), None if ids is None else list(ids))
         out = correlograms(times, sc, cluster_ids=ids, sample_rate=r, bin_size=bin_size,
                            window_size=window, symmetrize=case['sym'])
-        return dict(arr=out.tolist(), shape=list(out.shape))
+        res = dict(arr=out.tolist(), shape=list(out.shape))
+        # the caller's arrays are unchanged and the same call gives the same answer again
+        res['args_changed'] = not (np.array_equal(times, keep[0]) and np.array_equal(sc, keep[1]) and
+                                   (ids is None or list(ids) == keep[2]))
+        out2 = correlograms(times, sc, cluster_ids=ids, sample_rate=r, bin_size=bin_size,
+                            window_size=window, symmetrize=case['sym'])
+        res['second_differs'] = not np.array_equal(out, out2)
+        return res
     if case['op'] == 'firing':
-        sc = np.array(case['sc'], dtype=np.int64)
-        out = firing_rate(sc, cluster_ids=case.get('ids'), bin_size=case['bs'], duration=case['dur'])
+        base = case.get('idbase', 0)
+        sc = np.array([c + base for c in case['sc']], dtype=np.int64)
+        ids = case.get('ids')
+        if ids is not None:
+            ids = [c + base for c in ids]
+        out = firing_rate(sc, cluster_ids=ids, bin_size=case['bs'], duration=case['dur'])
         return dict(arr=np.asarray(out).tolist())
     raise ValueError(case['op'])
 
 
 def model_query(case, impl_res):
-    q = {k: v for k, v in case.items() if not k.startswith('_') and k not in ('rate', 'dtype', 'bs', 'dur')}
+    q = {k: v for k, v in case.items() if not k.startswith('_') and k not in ('rate', 'dtype', 'bs', 'dur', 'idbase', 'idskind')}
     if case['op'] == 'ccg' and len(case['t']) <= 8:
         q['spec'] = 1
     return q
@@ -108,6 +125,10 @@ def judge(case, impl_res, ans):
             return 'SPEC: wrong shape %s' % impl_res['ok']['shape']
         if arr != exp:
             return 'SPEC: correlogram differs from the pair counts'
+        if impl_res['ok'].get('args_changed'):
+            return 'SPEC: correlograms modified the spike-time / cluster arrays passed by the caller'
+        if impl_res['ok'].get('second_differs'):
+            return 'SPEC: the same correlogram call gave a different result the second time'
         return None
     if case['op'] == 'firing':
         f = case['bs'] / (case['dur'] or 1.)
@@ -199,6 +220,7 @@ def gen(tier, rng):
                 c = dict(p=PID, op='firing', sc=list(sc), bs=0.5, dur=(0, 3.0, 7.0)[n % 3])
                 if ids is not None:
                     c['ids'] = ids
+                    c['idbase'] = [0, 0, 1000001][(n + len(ids)) % 3]
                 yield c
     # spike counts whose pairwise products exceed 2^31 (a 14 Hz unit over one hour)
     big = [[50000, 47000], [46341, 46341, 5]] if q else [[50000, 47000], [46341, 46341, 5], [70000, 3, 31000],
@@ -223,5 +245,8 @@ def gen(tier, rng):
         if rng.random() < .8:
             rng.shuffle(pool)
             c['ids'] = list(pool)
+            c['idskind'] = rng.pick(['list', 'array'])
+        if c['dtype'] == 'int64' and rng.random() < .3:
+            c['idbase'] = rng.pick([1000, 1000000, 5000000])    # large cluster ids
         if exact(c):
             yield c
